@@ -26,6 +26,8 @@ Definition recv_final_pc (r : rpc) : bool := match r with RFinal => true | _ => 
 Definition pc_fresh (p : cpc) : bool := match p with PCheck _ | PParked | PReg => true | _ => false end.
 Definition pc_noid (p : cpc) : bool := match p with PCheck _ | PParked => true | _ => false end.
 
+Definition was_reg (k : call) : bool := k_reg k || cclosed (k_chan k).
+
 Record kinv (k : call) : Prop := mkKinv {
   ki_reg_pc : k_reg k = true -> pc_holds_reg (k_pc k) = true;
   ki_reg_open : k_reg k = true -> k_pc k = POpen -> loop_alive k = true;
@@ -45,7 +47,8 @@ Record kinv (k : call) : Prop := mkKinv {
   ki_final : recv_final_pc (s_recv k) = true -> s_rchclosed k = true \/ sctx_done k = true;
   ki_ctxc : s_ctxc k = true -> k_pc k = POpen;
   ki_fresh : pc_fresh (k_pc k) = true -> cclosed (k_chan k) = false;
-  ki_noid : pc_noid (k_pc k) = true -> k_id k = 0 }.
+  ki_noid : pc_noid (k_pc k) = true -> k_id k = 0;
+  ki_closed_id : cclosed (k_chan k) = true -> 0 < k_id k }.
 
 Ltac kinv_solve :=
   constructor; csimpl; unfold ops_pending, recv_pending, header_pending, send_pending, trailer_pending, loop_alive in *; csimpl;
@@ -154,8 +157,6 @@ Lemma cinv_call s c k : cinv s -> nth_error (calls s) c = Some k -> kinv k.
 Proof. intros [HF _] Hn. eapply Forall_nth; eauto. Qed.
 
 (* ---------- connection-wide invariants ---------- *)
-Definition was_reg (k : call) : bool := k_reg k || cclosed (k_chan k).
-
 Record sinv (s : state) : Prop := mkSinv {
   si_rerr_dead : rerr s = true <-> rl s = RLDead;
   si_rerr_unreg : rerr s = true -> forall c k, nth_error (calls s) c = Some k -> k_reg k = false;
